@@ -53,8 +53,36 @@ def sources(prog):
                 yield f, b, t, fn.rsplit("::", 1)[1], recv
 
 
+ORDER_SENSITIVE = ("::dedup", "::dedup_by", "::dedup_by_key", "::truncate", "::pop", "::first", "::last", "::split_off", "::swap_remove")
+
+
+def order_sensitive_before(f, b, sort_block):
+    """calls between the hash iteration (block b) and the sort whose result depends on the order of the collected items"""
+    region = {b} | f.reach_from(b)
+    out = []
+    for bb, t in f.calls():
+        if bb not in region or f.is_cleanup(bb) or bb == sort_block:
+            continue
+        fn = t.get("fn") or ""
+        if fn.startswith(("alloc::vec::Vec", "core::slice::")) and fn.endswith(ORDER_SENSITIVE) and sort_block in f.reach_from(bb):
+            out.append(short_path(fn))
+    return out
+
+
 def total_sort_after(prog, f, b):
-    """a sort that yields a content-determined order, reachable after block b"""
+    """a sort that yields a content-determined order, reachable after block b (and nothing order-dependent happens to the collected items
+    before it)"""
+    r = _total_sort_after(prog, f, b)
+    if r is None:
+        return None
+    why, sort_block = r
+    pre = order_sensitive_before(f, b, sort_block)
+    if pre:
+        return None
+    return why
+
+
+def _total_sort_after(prog, f, b):
     region = {b} | f.reach_from(b)
     for bb, t in f.calls():
         if bb not in region or f.is_cleanup(bb):
@@ -65,10 +93,10 @@ def total_sort_after(prog, f, b):
         recv = (t.get("argtys") or [""])[0]
         if fn.endswith(("::sort", "::sort_unstable")):
             if "jrsonnet_interner::IStr" in recv and "(" not in recv:
-                return "elements (IStr, ordered by content) sorted with %s" % short_path(fn)
+                return "elements (IStr, ordered by content) sorted with %s" % short_path(fn), bb
             continue
         if fn.endswith(("::sort_unstable_by_key", "::sort_by_key")) and "jrsonnet_evaluator::obj::FieldSortKey" in recv:
-            return "sorted by FieldSortKey (inheritance depth, declaration index): unique per field, independent of hash order"
+            return "sorted by FieldSortKey (inheritance depth, declaration index): unique per field, independent of hash order", bb
         # comparator closure must end in the element's own order
         cl = None
         for a in t["args"]:
@@ -86,7 +114,7 @@ def total_sort_after(prog, f, b):
                 if c2.kind == "Closure" and c2.path.startswith(cl.path + "::"):
                     inner += [(tt.get("res") or tt.get("fn") or "") for _b, tt in c2.calls()]
             if any("jrsonnet_interner::IStr" in c and c.endswith("::cmp") for c in inner):
-                return "sorted with a comparator that breaks ties by the name (total order)"
+                return "sorted with a comparator that breaks ties by the name (total order)", bb
     return None
 
 
